@@ -86,6 +86,7 @@ structure World where
   ttl : Int              -- the `ttlMs` the server puts on `tools/list` results
   server : Tools
   cache : List Page
+  serverB : Tools := []            -- the tools of a SECOND `Server` behind the same handler (`getServer` chooses by URL path)
   gen : Nat := 0                   -- `methodCache.generation`: counts invalidations
   pend : Option Pending := none    -- the listing in flight, if any (the harness keeps at most one)
 
@@ -105,6 +106,9 @@ inductive SeqOp where
   | listRecv                             -- the response of the listing in flight reaches the client: putIfCurrent, return
   | look (name : Bytes)                  -- client: lookupTool
   | call (name : Bytes) (a : Args)       -- client: CallTool
+  | setToolB (name : Bytes) (p : Props)  -- the second server behind the handler: AddTool
+  | delToolB (name : Bytes)              -- … RemoveTools
+  | callB (name : Bytes) (a : Args)      -- a second client connects to the second server's path, lists all its tools, calls
 
 /-- The outcome of a call: the handler ran once with the arguments sent; the call succeeded otherwise; it failed with a
 JSON-RPC code, if any (`quiet`: no handler ran). -/
@@ -153,6 +157,12 @@ def callWith (c : B64) (w : World) (cdef : Option Props) (name : Bytes) (a : Arg
 
 def callModel (c : B64) (w : World) (name : Bytes) (a : Args) : ParamHdrs × CallOut :=
   callWith c w (clientLookup w name) name a
+
+/-- A call that goes to the SECOND server of the handler (`getServer(req)` returns it for this request's path), by a client
+that has just listed that server's tools: the client mirrors, and the server validates against, THAT server's definition —
+whatever the first server registered under the same name, whatever was called before. -/
+def callModelB (c : B64) (w : World) (name : Bytes) (a : Args) : ParamHdrs × CallOut :=
+  callWith c { w with server := w.serverB } (toolDef w.serverB name) name a
 
 def staleAll (cache : List Page) : List Page := cache.map (fun pg => { pg with cur := false })
 
@@ -211,6 +221,11 @@ def stepW (c : B64) (w : World) (now : Nat) : SeqOp → World × SeqObs
   | .call n a =>
     let r := callModel c w n a
     (w, .called r.1 r.2)
+  | .setToolB n p => ({ w with serverB := setTool n p w.serverB }, .ok)
+  | .delToolB n => ({ w with serverB := removeTool n w.serverB }, .ok)
+  | .callB n a =>
+    let r := callModelB c w n a
+    (w, .called r.1 r.2)
 
 /-! ## the monitor of the `seq` records -/
 
@@ -221,6 +236,7 @@ structure SeqMon where
   listed : List Bytes      -- names in tools/list results the SERVER gave the client since the table last changed and
                            -- since the last list_changed: for these the client has listed the current definition
   seen : Tools             -- every (name, definition) the client received since the last list_changed (diagnosis only)
+  serverB : Tools := []    -- the second server's tool table
   pageSize : Nat := 0      -- the server's page size (configuration)
   fresh : Bool := false    -- the client has handled a list_changed since the server's table last changed: its cache was
                            -- emptied after the change, whatever it serves from it now was requested after that
@@ -307,6 +323,24 @@ def seqMonStep (c : B64) (m : SeqMon) : SeqOp → SeqObs → SeqMon × Option Cl
        else none
      | none => (match out with | .notOk _ false => some .e2eReached | _ => none))
   | .call _ _, _ => (m, none)
+  | .setToolB n p, _ => ({ m with serverB := setTool n p m.serverB }, none)
+  | .delToolB n, _ => ({ m with serverB := removeTool n m.serverB }, none)
+  | .callB n a, .called hdrs out =>
+    (m,
+     match toolDef m.serverB n with
+     | some ps =>
+       if m.newProto then
+         if toolValidB ps && argsValidB ps a then
+           (if out != .okSame then
+              -- the client listed THIS server's tools a moment ago: if it sent what this server's definition demands, the
+              -- handler judged the call by another server's tool of that name
+              (if hdrsSame hdrs (generateParamHeaders c ps a) then some .seqOtherServer else some .seqAgree)
+            else genMonitor c ps a hdrs)
+         else (match out with | .notOk _ false => some .e2eReached | _ => none)
+       else if out != .okSame then some .seqLegacy
+       else none
+     | none => (match out with | .notOk _ false => some .e2eReached | _ => none))
+  | .callB _ _, _ => (m, none)
 
 /-! ## runs -/
 
